@@ -108,6 +108,22 @@ def s_shell(e, st, callee, args, dty):
     return ListV((Lazy("line_of_%s" % getattr(v, "name", "?"), "String"),), "Vec")
 
 
+def s_space(e, st, callee, args, dty):
+    """FsCommand::space_to_reclaim: a free 64-bit value per command"""
+    v = deref_val(e, st, args[0])
+    nm = getattr(v, "name", "?")
+    return Agg("file::FileLen", {0: Int(z3.BitVec("space_%s" % nm, 64), "u64")})
+
+
+def s_len_add_assign(e, st, callee, args, dty):
+    r = args[0]
+    a, b = deref_val(e, st, r), deref_val(e, st, args[1])
+    if not (isinstance(r, Ref) and isinstance(a, Agg) and isinstance(b, Agg) and isinstance(a.fields.get(0), Int) and isinstance(b.fields.get(0), Int)):
+        return NotImplemented
+    e.store(st, r.cell, r.path, Agg(a.ty, {0: Int(a.fields[0].t + b.fields[0].t, "u64")}))
+    return Unit()
+
+
 def consumer_closure(prog):
     ls = prog.find(r"^(dedupe::)?log_script$")
     cl = [g for g in prog.closures_of(ls) if re.search(r"Receiver::<.*>::recv|Receiver.*recv", g.text)]
@@ -135,6 +151,8 @@ def add(rep, prog):
                 cmds = {g: [Lazy("cmd_g%d_%d" % (g, j), "dedupe::FsCommand") for j in range(lens[g])] for g in range(n)}
                 script = [(g, cmds[g]) for g in perm]
                 extra = dict(optsum.SUMMARIES)
+                extra[r"^<.* as (std::iter::)?Iterator>::map$"] = listsum.s_iter_map
+                extra[r"^<.* as (std::iter::)?Iterator>::sum$"] = listsum.s_iter_sum_lens
                 extra.update({
                     r"PriorityQueue(::<.*>)?::new$": s_pq_new,
                     r"PriorityQueue(::<.*>)?::push$": s_pq_push,
@@ -142,6 +160,8 @@ def add(rep, prog):
                     r"PriorityQueue(::<.*>)?::pop$": s_pq_pop,
                     r"Receiver(::<.*>)?::recv$": make_recv(script),
                     r"FsCommand::to_shell_str$": s_shell,
+                    r"FsCommand::space_to_reclaim$": s_space,
+                    r"FileLen as (std::ops::)?AddAssign(<.*>)?>::add_assign$": s_len_add_assign,
                 })
                 eng = oblig.engine(prog, unroll=12, extra=extra, inline=oblig.module_inliner(prog, "dedupe.rs", r"FsCommand::(space_to_reclaim|to_shell_str)$"))
                 clo = Agg(cf.args[0][1], {i: Lazy("cap%d" % i, "?") for i in range(6)})
@@ -163,14 +183,28 @@ def add(rep, prog):
                             printed.append(getattr(ev.args[0], "name", repr(ev.args[0])))
                     res = p.result.fields[0]
                     cnt = None
+                    space_ok = None
                     if isinstance(res, Agg):
                         for v in res.fields.values():
-                            if isinstance(v, Int) and v.ty in ("usize", "u64"):
+                            if isinstance(v, Int) and v.ty in ("usize", "u64") and cnt is None:
                                 c = z3.simplify(v.t)
                                 cnt = c.as_long() if z3.is_bv_value(c) else None
-                                break
-                    if printed != want or cnt != len(want):
-                        bad.append({"arrival_order": list(perm), "commands_per_group": list(lens), "printed": printed, "expected": want, "processed_count": cnt})
+                            if isinstance(v, Agg) and isinstance(v.fields.get(0), Int) and "FileLen" in v.ty:
+                                # reclaimed space == sum of the script's commands, for every value of the per-command spaces
+                                total = z3.BitVecVal(0, 64)
+                                for nm in want:
+                                    total = total + z3.BitVec("space_%s" % nm, 64)
+                                slv = z3.Solver()
+                                slv.add(v.fields[0].t != total)
+                                nq += 1
+                                space_ok = slv.check() == z3.unsat
+                                if not space_ok:
+                                    space_cex = {str(d): slv.model()[d].as_long() for d in slv.model().decls()}
+                    if space_ok is None:
+                        inconc = "the reclaimed space of log_script's result is not modelled"
+                    if printed != want or cnt != len(want) or space_ok is False:
+                        bad.append({"arrival_order": list(perm), "commands_per_group": list(lens), "printed": printed, "expected": want, "processed_count": cnt,
+                                    "reclaimed_space_is_the_sum": space_ok, "spaces": space_cex if space_ok is False else None})
                 if len(bad) > 6:
                     break
             if len(bad) > 6:
@@ -184,8 +218,9 @@ def add(rep, prog):
     if bad:
         o.verdict = "violated"
         o.cex = {"cases": bad[:4]}
-        o.detail = "arrival order %s with %s commands per group: printed %s, expected %s (processed_count %s)" % (
-            bad[0]["arrival_order"], bad[0]["commands_per_group"], bad[0]["printed"], bad[0]["expected"], bad[0]["processed_count"])
+        o.detail = "arrival order %s with %s commands per group: printed %s, expected %s (processed_count %s, reclaimed space is the sum: %s %s)" % (
+            bad[0]["arrival_order"], bad[0]["commands_per_group"], bad[0]["printed"], bad[0]["expected"], bad[0]["processed_count"],
+            bad[0]["reclaimed_space_is_the_sum"], bad[0]["spaces"] or "")
     elif inconc:
         o.verdict, o.detail = "inconclusive", inconc
     elif npaths == 0:
